@@ -35,7 +35,10 @@ LEAN_MODULES = ["Clikit.Props.C06"]
 REQUIRED_THEOREMS = ["Clikit.Props.C06.step_atomic_inv", "Clikit.Props.C06.reachable_inv",
                      "Clikit.Props.C06.format_agrees", "Clikit.Props.C06.format_inv",
                      "Clikit.Props.C06.ctor_same_rules", "Clikit.Props.C06.ctor_inv",
-                     "Clikit.Props.C06.set_is_clear_then_add", "Clikit.Props.C06.multi_add_prefix"]
+                     "Clikit.Props.C06.set_is_clear_then_add", "Clikit.Props.C06.multi_add_prefix",
+                     "Clikit.Props.C06.queries_match_elements", "Clikit.Props.C06.queries_match_elements_builder",
+                     "Clikit.Props.C06.names_identify_at_most_one", "Clikit.Props.C06.argument_rules",
+                     "Clikit.Props.C06.listing_order", "Clikit.Props.C06.lookups_raise_documented_only"]
 RULE = ("cases = (0-2 base levels built with ArgsFormat(elements, base)) x (sequence of builder calls); quick: every "
         "sequence of length <= 3 over a reduced pool of 14 calls on 4 base configurations, then random sequences of "
         "length 4-7 over the full pool (20 elements with colliding long/short names and aliases, set_*/add_* with "
@@ -179,7 +182,7 @@ def generate(tier, rng):
         for bases in SMALL_BASES:
             for seq in itertools.product(SMALL_OPS, repeat=n):
                 yield _run_case(bases, list(seq), False)
-    n_random = 2500 if tier == "quick" else 60000
+    n_random = 4000 if tier == "quick" else 60000
     for i in range(n_random):
         r = rng.random()
         if r < 0.70:
@@ -243,9 +246,12 @@ class _Objs(object):
         if k == "opt":
             o = Option(e["long"], e["short"], 0, desc)
             assert (o.long_name, o.short_name) == (e["long"], e["short"])
+            assert len(o.long_name) >= 2 and (o.short_name is None or len(o.short_name) == 1)      # `Opt.wf`
         elif k == "copt":
             o = CommandOption(e["long"], e["short"], list(e["aliases"]), 0, desc)
             assert (o.long_name, o.short_name, o.long_aliases, o.short_aliases) == (e["long"], e["short"], e["la"], e["sa"])
+            assert len(o.long_name) >= 2 and (o.short_name is None or len(o.short_name) == 1)      # `CmdOpt.wf`
+            assert all(len(a) >= 2 for a in o.long_aliases) and all(len(a) == 1 for a in o.short_aliases)
         elif k == "arg":
             flags = (Argument.REQUIRED if e["req"] else Argument.OPTIONAL) | (Argument.MULTI_VALUED if e["multi"] else 0)
             o = Argument(e["name"], flags, desc)
@@ -544,8 +550,8 @@ def _check_state(snap, base_snap, extra, where):
         return "%s: an option is listed twice" % where
     for t in set(e["tag"] for e in copts):
         e = _elem(t, extra)
-        if sum(1 for c in copts if c["tag"] == t) != len(set([e["long"]] + e["la"])):
-            return "%s: command option %s is not listed once per long name/alias" % (where, t)
+        if sum(1 for c in copts if c["tag"] == t) > len(set([e["long"]] + e["la"])):
+            return "%s: command option %s is listed more often than it has long names" % (where, t)
     # arguments: unique names, at most one multi-valued and it is last, no required after optional
     an = [e["name"] for _, e in args]
     if len(set(an)) != len(an) or any(k != e["name"] for k, e in args):
@@ -592,10 +598,12 @@ def _check_state(snap, base_snap, extra, where):
                 return "%s: has_argument/get_argument(%d) = %s/%s, listing implies %s" % (w, i, hi, gi, want)
     # --- own and base listings compose in the listing order of the format
     bo = _decode(base_snap)[True] if base_snap is not None else {"opts": [], "copts": [], "args": [], "names": []}
-    if full["opts"] != own["opts"] + bo["opts"] or full["copts"] != own["copts"] + bo["copts"]:
-        return "%s: options are not listed own-first followed by the base's" % where
-    if full["args"] != bo["args"] + own["args"] or full["names"] != bo["names"] + own["names"]:
-        return "%s: arguments / command names are not listed base-first" % where
+    # (the statement fixes the order of arguments - base first - but not that of the other listings)
+    if sorted(full["opts"]) != sorted(own["opts"] + bo["opts"]) or sorted(full["copts"]) != sorted(own["copts"] + bo["copts"]) \
+            or sorted(full["names"]) != sorted(own["names"] + bo["names"]):
+        return "%s: a listing with include_base=True is not the own listing plus the base's listing" % where
+    if full["args"] != bo["args"] + own["args"]:
+        return "%s: arguments are not listed base-first" % where
     return None
 
 
